@@ -32,7 +32,7 @@ ASSUMPTIONS = [
     "clock frozen with freezegun; host name identical (same process)",
 ]
 BUDGET = {"quick": (160, 4), "thorough": (24000, 16)}
-REQUIRED = ["sibling_histories", "ancestor_matches_pattern", "ancestor_ascmhl", "relative_invocation", "trailing_slash", "dot_invocation", "relocated_verify"]
+REQUIRED = ["sibling_histories", "ancestor_matches_pattern", "ancestor_ascmhl", "relative_invocation", "trailing_slash", "dot_invocation", "relocated_verify", "ancestor_glob_chars"]
 
 CFG = {
     "kinds": ["create"] * 8 + ["put_new", "mkdir"],
@@ -64,7 +64,7 @@ def _scn(draw):
     pat = draw(st.sampled_from([None, None, "tmp*", "*.bak", "cache", "cache/"]))
     scn["pattern"] = pat
     matching = {"tmp*": "tmpstore", "*.bak": "old.bak", "cache": "cache", "cache/": "cache"}.get(pat)
-    anc_pool = ["plain", "with space", "ünï-ço", "ascmhl", ".DS_Store", "xascmhl"] + ([matching] * 3 if matching else [])
+    anc_pool = ["plain", "with space", "ünï-ço", "ascmhl", ".DS_Store", "xascmhl", "RAID [backup]", "Offload [day 1]", "x[!a]y", "st*r", "wh?t"] + ([matching] * 3 if matching else [])
     scn["ancestors"] = draw(st.lists(st.sampled_from(anc_pool), min_size=1, max_size=3))
     scn["form"] = draw(st.sampled_from(["abs", "abs", "slash", "rel", "dot"]))
     scn["perm"] = draw(st.integers(0, 2**31))
@@ -192,6 +192,8 @@ def run_case(scn, ctx):
                 feats.add("sibling_histories")
         if "ascmhl" in scn["ancestors"]:
             feats.add("ancestor_ascmhl")
+        if any(c in a for a in scn["ancestors"] for c in "[*?"):
+            feats.add("ancestor_glob_chars")
         import fnmatch
 
         if any(a in ("ascmhl", ".DS_Store") or (pat and fnmatch.fnmatchcase(a, pat.rstrip("/"))) for a in scn["ancestors"]):
